@@ -175,9 +175,9 @@ def iri_cases(tier):
         yield ("query", "http://example.com/p?" + s, fixed)
     for s in gen.strings(ALPHA + FRAG_ONLY, d_big):
         yield ("fragment", "http://example.com/p#" + s, fixed)
-    if T:
-        # depth 4 over the first 24 atoms (all CORE atoms and 8 of EXTRA)
-        for s in gen.strings(ALPHA[:24], 4, 4):
+    # depth 4: over the 16 core atoms in quick, over the first 24 atoms (all CORE atoms and 8 of EXTRA) in thorough
+    if True:
+        for s in gen.strings(ALPHA[:24] if T else CORE, 4, 4):
             yield ("path", "http://example.com/" + s, fixed)
             yield ("query", "http://example.com/p?" + s, fixed)
             yield ("fragment", "http://example.com/p#" + s, fixed)
@@ -188,7 +188,7 @@ def iri_cases(tier):
         yield ("fusion", "http://example.com/p#" + s, fixed)
         if s:   # an empty userinfo is dropped, which is normalisation
             yield ("fusion", f"http://{s}@example.com/", fixed)
-    for s in gen.strings(TRUNC, 4 if T else 3, 1):
+    for s in gen.strings(TRUNC, 4, 1):
         yield ("trunc", "http://example.com/" + s, fixed)
         yield ("trunc", "http://example.com/p?" + s, fixed)
         yield ("trunc", "http://example.com/p#" + s, fixed)
@@ -819,7 +819,7 @@ def finalize(R, tier):
             or canon("a%26b", "&=+") == canon("a&b", "&=+") or canon("%zz", "") != canon("%25zz", ""):
         raise core.Broken("canonical-form oracle lost its discriminating power")
     return {
-        "bound": ("components <=3 atoms over 30-32 atoms, cross depth 1, env paths <=3, dispatcher paths <=4 segments"
+        "bound": ("components <=3 atoms over 30-32 atoms and 4 atoms over 16, truncated-prefix strings <=4, cross depth 1, env paths <=3, dispatcher paths <=4 segments"
                   if tier == "quick" else
                   "components <=3 atoms over 30-32 atoms and <=4 over 16, cross depth 2, env paths <=4, dispatcher paths <=5 segments"),
         "exhaustive": True,
